@@ -1,6 +1,7 @@
 """C09 -- parameters are resolved as GROMACS preprocessing would resolve them."""
 from vlib.framework import PUnit, LUnit, BUnit
 from contracts import topology as T
+from bounded import b_top
 
 
 def build(tier, seed):
@@ -10,6 +11,6 @@ def build(tier, seed):
         PUnit("combination-rules", [T.LB, T.GEO], T.REG),
         LUnit("combination-symmetry", T.lemma_comb_symmetric),
         PUnit("c6c12-to-sigma-epsilon", [T.CONV], T.REG),
-    ]
+    ] + [u for u in b_top.UNITS if u.name == "c09-preprocess"]
     return {"units": units, "level": "other",
             "notes": "contract-based deductive verification (pyvc: VCs generated from the real AST, z3/cvc5)"}
